@@ -31,6 +31,19 @@ REG_PY = {
 }
 
 
+_PLAIN_OK = [False]
+
+
+def input_conforms(v, t):
+    """like strict(), for *inputs*: a plain int/float/str that satisfies a restricted type's predicate is a conforming
+    input (the parser casts it); used when the type's own cast refused to build the instance"""
+    _PLAIN_OK[0] = True
+    try:
+        return strict(v, t)
+    finally:
+        _PLAIN_OK[0] = False
+
+
 def strict(v, t, path="", exact=False):
     """exact=True: leaf values must be of exactly the hinted class (used to decide which Union member owns a value)."""
     k = t.kind
@@ -53,13 +66,13 @@ def strict(v, t, path="", exact=False):
         return (path, f"not a member of Literal{t.extra}: {v!r} ({type(v).__name__})")
     if k == "rnum":
         base, rs, join = t.extra
-        if isinstance(v, bool) or not isinstance(v, t.hint):
+        if isinstance(v, bool) or not (isinstance(v, t.hint) or (_PLAIN_OK[0] and isinstance(v, base))):
             return (path, f"expected {t.hint.__name__}, got {type(v).__name__}")
         checks = [OPS[o](v, ref) for o, ref in rs]
         ok = all(checks) if join == "and" else any(checks)
         return None if ok else (path, f"restriction violated by {v!r}")
     if k == "rstr":
-        if not isinstance(v, t.hint):
+        if not (isinstance(v, t.hint) or (_PLAIN_OK[0] and isinstance(v, str))):
             return (path, f"expected {t.hint.__name__}, got {type(v).__name__}")
         return None if re.match(t.extra, v) else (path, f"pattern violated by {v!r}")
     if k == "reg":
